@@ -105,6 +105,11 @@ def expr(e):
             and len(e.args) >= 2 and not e.keywords:
         k = 'EMaxGen' if e.func.id == 'max' else 'EMinGen'
         return '(%s (EVar "_x") "_x" (ETuple [%s]) None)' % (k, '; '.join(expr(x) for x in e.args))
+    if isinstance(e, ast.ListComp) and len(e.generators) == 1:
+        g = e.generators[0]
+        if isinstance(g.target, ast.Name) and len(g.ifs) <= 1 and not g.is_async:
+            cond = 'None' if not g.ifs else '(Some %s)' % expr(g.ifs[0])
+            return '(EListComp %s %s %s %s)' % (expr(e.elt), q(g.target.id), expr(g.iter), cond)
     if isinstance(e, ast.Call):
         return call(e)
     raise Unsupported(ast.dump(e)[:200])
@@ -196,11 +201,29 @@ def stmt(s):
     if isinstance(s, ast.Return):
         return '(SReturn %s)' % (expr(s.value) if s.value is not None else '(EConst VNone)')
     if isinstance(s, ast.For) and isinstance(s.target, ast.Name) and not s.orelse:
+        if any(isinstance(m, (ast.Break, ast.Continue)) for m in ast.walk(s)):
+            raise Unsupported('break/continue inside a for loop')
         return '(SFor %s %s [%s])' % (q(s.target.id), expr(s.iter), block(s.body))
     if isinstance(s, ast.Expr) and isinstance(s.value, ast.Call) and isinstance(s.value.func, ast.Attribute) \
             and s.value.func.attr == 'extend' and isinstance(s.value.func.value, ast.Name) \
             and len(s.value.args) == 1:
         return '(SExtend %s %s)' % (q(s.value.func.value.id), expr(s.value.args[0]))
+    if isinstance(s, ast.Expr) and isinstance(s.value, ast.Call) and isinstance(s.value.func, ast.Attribute) \
+            and s.value.func.attr == 'append' and isinstance(s.value.func.value, ast.Name) \
+            and len(s.value.args) == 1 and not s.value.keywords:
+        return '(SAppend %s %s)' % (q(s.value.func.value.id), expr(s.value.args[0]))
+    if isinstance(s, ast.While) and not s.orelse:
+        for n in ast.walk(s):
+            # break / continue inside a `for` nested in the loop would target that `for`: not in the subset
+            if isinstance(n, ast.For) and any(isinstance(m, (ast.Break, ast.Continue)) for m in ast.walk(n)):
+                raise Unsupported('break/continue inside a for loop')
+            if isinstance(n, ast.While) and n is not s:
+                raise Unsupported('nested while')
+        return '(SWhile %s [%s])' % (expr(s.test), block(s.body))
+    if isinstance(s, ast.Break):
+        return 'SBreak'
+    if isinstance(s, ast.Continue):
+        return 'SContinue'
     raise Unsupported(ast.dump(s)[:200])
 
 
@@ -245,7 +268,12 @@ def translate_function(fn, name, slice_from=None, params=None):
     """fn: ast.FunctionDef.  slice_from: name of the variable whose first assignment starts the translated
     slice (the statements before it are *not* translated; `params` are then the free variables)."""
     body = list(fn.body)
-    if slice_from is not None:
+    if slice_from == '<while>':
+        loops = [x for x in body if isinstance(x, ast.While)]
+        if len(loops) != 1:
+            raise Unsupported('%d while loops at the top level of %s' % (len(loops), fn.name))
+        body = loops
+    elif slice_from is not None:
         for i, s in enumerate(body):
             if isinstance(s, ast.Assign) and len(s.targets) == 1 and isinstance(s.targets[0], ast.Name) \
                     and s.targets[0].id == slice_from:
@@ -360,9 +388,15 @@ TARGETS = {
         ('fun', 'Box.border_height', 'border_height', {}),
         ('fun', 'Box.margin_width', 'margin_width', {}),
         ('fun', 'Box.margin_height', 'margin_height', {}),
+        ('fun', 'Box.content_box_x', 'content_box_x', {}),
+        ('fun', 'Box.content_box_y', 'content_box_y', {}),
     ]),
     'GenFloat': ('weasyprint/layout/float.py', [
         ('fun', 'get_clearance', 'get_clearance', {}),
+        # the `while True:` loop of avoid_collisions (the statements before it bind its free variables, the ones
+        # after it read position_y, max_left_bound, max_right_bound)
+        ('fun', 'avoid_collisions', 'avoid_loop', {'slice_from': '<while>', 'params': [
+            'excluded_shapes', 'position_y', 'box_width', 'box_height', 'box', 'containing_block', 'outer']}),
     ]),
     'GenAbsolute': ('weasyprint/layout/absolute.py', [
         ('fun', 'absolute_width', 'absolute_width', {'callable': False}),
